@@ -499,6 +499,81 @@ pub fn gen_sequence(rng: &mut Rng, fams: &[Family], len: usize) -> Vec<Step> {
     gen_sequence_mode(rng, fams, len, false)
 }
 
+/// KEYS / SCAN MATCH / HSCAN MATCH / ZSCAN MATCH against the model's glob (Redis `stringmatchlen`) over names built to make
+/// a matcher backtrack: repeated suffixes, a star followed by text that also occurs earlier, classes, escapes.
+fn glob_matrix(rep: &mut Report) {
+    const NAMES: [&str; 16] = ["job:11", "job:1", "app.log.log", "app.log", "abb", "ab", "aab", "a1b1", "xx", "x", "k[1]", "a*b", "axb", "aXb", "abab", "b"];
+    const PATS: [&str; 26] = [
+        "*1", "*11", "*.log", "a*b", "*b", "*ab", "a*b*", "?*1", "*[1]", "*?", "a*", "*a*b", "**b", "*b*b", "a?b", "*\\*b", "[a-b]*b", "*[^x]", "*x", "x*x", "*:1", "*:*1", "a*b*b", "*.l*g",
+        "k\\[1\\]", "*",
+    ];
+    let b = |x: &str| x.as_bytes().to_vec();
+    let mut t = ExecTarget::new();
+    for n in NAMES {
+        let _ = t.run(&vec![b("SET"), b(n), b("v")]);
+        let _ = t.run(&vec![b("HSET"), b("glob:h"), b(n), b("v")]);
+        let _ = t.run(&vec![b("ZADD"), b("glob:z"), b("1"), b(n)]);
+    }
+    let names_of = |tr: &Tree, step: usize| -> Vec<Vec<u8>> {
+        let mut out = vec![];
+        if let Tree::Arr(Some(v)) = tr {
+            for (i, e) in v.iter().enumerate() {
+                if i % step == 0 {
+                    if let Tree::Bulk(Some(x)) = e {
+                        out.push(x.clone());
+                    }
+                }
+            }
+        }
+        out.sort();
+        out
+    };
+    for p in PATS {
+        let want: Vec<Vec<u8>> = {
+            let mut w: Vec<Vec<u8>> = NAMES.iter().filter(|n| crate::model::glob(p.as_bytes(), n.as_bytes())).map(|n| b(n)).collect();
+            w.sort();
+            w
+        };
+        let runs: [(&str, Argv, usize, bool); 4] = [
+            ("KEYS", vec![b("KEYS"), b(p)], 1, false),
+            ("SCAN", vec![b("SCAN"), b("0"), b("MATCH"), b(p), b("COUNT"), b("1000")], 1, true),
+            ("HSCAN", vec![b("HSCAN"), b("glob:h"), b("0"), b("MATCH"), b(p), b("COUNT"), b("1000")], 2, true),
+            ("ZSCAN", vec![b("ZSCAN"), b("glob:z"), b("0"), b("MATCH"), b(p), b("COUNT"), b("1000")], 2, true),
+        ];
+        for (cmd, argv, step, cursor) in runs {
+            rep.evaluations += 1;
+            rep.count("glob_matrix_queries");
+            let Ok(r) = t.run(&argv) else { continue };
+            let listed = if cursor {
+                match &r {
+                    Tree::Arr(Some(v)) if v.len() == 2 => names_of(&v[1], step),
+                    _ => vec![],
+                }
+            } else {
+                names_of(&r, step)
+            };
+            // KEYS / SCAN also list the two helper keys when the pattern matches them
+            let mut want2 = want.clone();
+            if cmd == "KEYS" || cmd == "SCAN" {
+                for extra in ["glob:h", "glob:z"] {
+                    if crate::model::glob(p.as_bytes(), extra.as_bytes()) {
+                        want2.push(b(extra));
+                    }
+                }
+                want2.sort();
+            }
+            if listed != want2 {
+                let missing = want2.iter().filter(|x| !listed.contains(x)).count();
+                rep.violation(
+                    format!("C01|{}|glob|{}", cmd, if missing > 0 { "name-not-listed" } else { "extra-name-listed" }),
+                    format!("{} with pattern {:?}: listed {:?}, Redis lists {:?}", cmd, p, listed.iter().map(|x| lossy(x)).collect::<Vec<_>>(), want2.iter().map(|x| lossy(x)).collect::<Vec<_>>()),
+                    json!({"glob": p, "cmd": cmd}),
+                );
+            }
+        }
+    }
+}
+
 pub fn model_leg(args: &Args) {
     let mut rep = Report::new("C01", "model");
     if let Some(p) = &args.replay {
@@ -560,6 +635,9 @@ pub fn model_leg(args: &Args) {
         if !per_cmd.contains_key(*w) {
             rep.inconclusive(format!("command {} was never generated", w));
         }
+    }
+    if args.shard == 0 {
+        glob_matrix(&mut rep);
     }
     rep.finish(args);
 }
